@@ -78,7 +78,7 @@ def _sched(monitor_for, quick=(150, 3), thorough=(2500, 6), extra=None, **genkw)
             # structured families every scheduler property is exercised on besides the random scenarios
             n_mix, n_ms = (25, 2) if o.tier == "quick" else (600, 4)
             scs = [g(rng) for _ in range(n_mix) for g in (scorr.gen_fanin_scenario, scorr.gen_diamond_scenario, scorr.gen_group_mix_scenario, scorr.gen_ahead_scenario,
-                                                            scorr.gen_future_shift_scenario)]
+                                                            scorr.gen_future_shift_scenario, scorr.gen_multi_shift_scenario)]
             res2 = scorr.run_sched_suite(driver, rng, len(scs), n_ms, name="families", monitor=monitor_for, scenarios=scs)
             o.suites.append(res2)
             o.violations.extend(res2["violations"])
@@ -440,7 +440,8 @@ def _c04(o, driver, rng):
     while k < n_cross:
         # half of the budget on scenarios outside every known data-flow finding class (where a difference is never masked)
         sc = (scorr.gen_scenario, scorr.gen_clean_scenario, scorr.gen_fanin_scenario,
-              lambda r: scorr.gen_scenario(r, async_req=True))[k % 4](rng)     # the last: async_requests connections (D18 lived there)
+              lambda r: scorr.gen_scenario(r, async_req=True),               # async_requests connections (D18 lived there)
+              scorr.gen_multi_shift_scenario)[k % 5](rng)                   # one cached output read with several time shifts
         sc["sparse_persistent"] = False       # omitting a persistent output is a simulator-side contract breach (mosaik warns); see DESIGN.md
         if scorr.nonuniform_cutoff(sc, False):
             continue
